@@ -235,6 +235,23 @@ def s4_mark_failed_guards(C, rep, rid):
         ok = g1 or g2
         rep.ob(rid, ok, L.fn, "mark_failed guard", where=m.loc, how="wait->Ok(None)" if g1 else ("pay->Err" if g2 else ""),
                detail="" if ok else "mark_failed at %s is not confined to `wait_payment == Ok(None)` or `pay == Err`: the Free marker can be written while a part may be live" % m.loc)
+    # the attempt (id + generation) handed to mark_failed is this lifecycle's own: what add_payment_attempt returned on the
+    # pay-error path, what the stored Pending record said on the recovery path - never a record re-read later (it may be a
+    # newer lifecycle's, whose generation would make the guarded write succeed)
+    for m in L.mark_failed:
+        if len(m.args) < 3:
+            continue
+        e = strip(C.X.operand(b, m.args[2]))
+        after_pay = any(m.bb in b.reach_after([p.bb]) for p in L.pay)
+        fetches = [y for y in walk(e) if y[0] == "call" and y[1].endswith("Datastore::fetch_payment_info")]
+        adds = [y for y in walk(e) if y[0] == "call" and y[1].endswith("Datastore::add_payment_attempt")]
+        first_fetch = min((c.bb for c in L.store_r), default=None)
+        if after_pay:
+            okp = bool(adds) and not fetches
+        else:
+            okp = bool(fetches) and not adds and all(y[3][1] == first_fetch for y in fetches) if first_fetch is not None else bool(fetches) and not adds
+        rep.ob(rid, okp, L.fn, "mark_failed is given this lifecycle's own attempt", where=m.loc, how="from add_payment_attempt's Ok" if after_pay else "from the stored Pending record read at the start",
+               detail="" if okp else "mark_failed at %s is given %s: not the attempt this lifecycle registered / found at its start - a record re-read later may belong to a newer lifecycle, and its generation makes the Free write succeed over a live attempt" % (m.loc, show(e)[:100]))
     # Pending arm: select/pay only through mark_failed -> Ok
     ss = L.state_switch
     if not ss:
